@@ -275,11 +275,24 @@ theorem step_ok (nfa : Nfa) (cfg : Cfg) (s : Eng) (e : Ev) (hw : NfaWf nfa) (hm 
     rw [hts] at hstart
     have hbp := handleBp_ok nfa cfg s1.created s1.dropped runs1 r hm hv1.1 hv1.2 hstart
     have hs2 := hput s1 _ hs1 ⟨hbp.1, hbp.2⟩
-    simp only
-    refine ⟨_, _, rfl, ?_, hms⟩
-    generalize (if cfg.partitioned then { s1 with parts := partSet s1.parts e.key (handleBp cfg s1.created s1.dropped runs1 r).1 }
-      else { s1 with runs := (handleBp cfg s1.created s1.dropped runs1 r).1 }) = s2 at hs2
-    cases (handleBp cfg s1.created s1.dropped runs1 r).2 <;> exact hs2
+    cases hst : nfa.states[r.cur]? with
+    | none =>
+      have := hstart.1
+      simp [List.getElem?_eq_none_iff] at hst; omega
+    | some st =>
+      simp only [hst]
+      by_cases hacc : st.ty = .accept
+      · rw [if_pos hacc]
+        refine ⟨_, _, rfl, hs1, ?_⟩
+        intro g hg
+        rcases List.mem_append.mp hg with h' | h'
+        · exact hms g h'
+        · simp at h'; subst h'; intro h1; simpa using h1
+      · rw [if_neg hacc]
+        refine ⟨_, _, rfl, ?_, hms⟩
+        generalize (if cfg.partitioned then { s1 with parts := partSet s1.parts e.key (handleBp cfg s1.created s1.dropped runs1 r).1 }
+          else { s1 with runs := (handleBp cfg s1.created s1.dropped runs1 r).1 }) = s2 at hs2
+        cases (handleBp cfg s1.created s1.dropped runs1 r).2 <;> exact hs2
 
 theorem runAll_ok (nfa : Nfa) (cfg : Cfg) (hw : NfaWf nfa) (hm : 1 ≤ cfg.maxRuns) (hk : 1 ≤ cfg.lim.maxEvents) :
     ∀ (evs : List Ev) (s : Eng), EngInv nfa cfg s →
@@ -368,6 +381,7 @@ theorem step_first (pa pe pp pc : Option Pred) (cfg : Cfg) (eA : Ev) (hp : cfg.p
       some ({ runs := [runAt1 eA 0], created := 1, nextSeq := 1 }, { emitted := [], started := true, bp := some .added }) := by
   have : (0 : Nat) < cfg.maxRuns := by omega
   simp [step, hp, processRuns, tryStart_mid_A pa pe pp pc eA 0 hA hpa, handleBp, this]
+  simp [runAt1, nfaMid]
 
 def quiet : Out := { emitted := [] }
 
@@ -678,6 +692,7 @@ theorem emitted_trail (pa pe : Option Pred) (cfg : Cfg) (eA : Ev) (es : List Ev)
       some ({ runs := [runAt1 eA 0], created := 1, nextSeq := 1 }, { emitted := [], started := true, bp := some .added }) := by
     have : (0 : Nat) < cfg.maxRuns := by omega
     simp [step, hp, processRuns, tryStart_trail_A pa pe eA 0 hA hpa, handleBp, this]
+    simp [runAt1, nfaTrail]
   have h2 := runAll_trail pa pe cfg eA hp es { runs := [runAt1 eA 0], created := 1, nextSeq := 1 } [] he rfl
   simp only [emittedAll, runAll, h1]
   cases hra : runAll (nfaTrail pa pe) cfg { runs := [runAt1 eA 0], created := 1, nextSeq := 1 } es with
